@@ -49,6 +49,8 @@ def cache_rule(ctx, rule_id, prop_id, base_names, floor, clause, only_fields=Non
                         continue
                     if K.lookup(fn.prop or fn.name) is None or _reached(K, fn) is not fn:
                         continue
+                    if fn.kind == "method" and fn.name in _stage_helpers(K):
+                        continue  # a private stage of a method of the class: decided where it is called (its summary is part of the caller's)
                     bad, fresh, touched = ana.summary(fn)
                     if not touched:
                         continue
@@ -65,6 +67,37 @@ def cache_rule(ctx, rule_id, prop_id, base_names, floor, clause, only_fields=Non
     if n_memo == 0:
         raise AnalysisError(f"{rule_id}: no memoised getter found (anchor lost)")
     return res
+
+
+_STAGES: dict = {}
+
+
+def _stage_helpers(K) -> set:
+    """private methods (`_x`, not dunder) of K that some other member reached on K calls as `self._x(..)`: stages a method was split into.
+    What such a stage leaves undone (a cache it does not reset itself) may be done by the sibling stage or the caller right after — the
+    obligation is the caller's, whose summary includes the stage's."""
+    import ast
+
+    hit = _STAGES.get(id(K))
+    if hit is not None and hit[0] is K:
+        return hit[1]
+    out = set()
+    for c in K.mro:
+        if isinstance(c, str):
+            continue
+        fns = list(c.methods.values()) + [f for pr in c.props.values() for f in (pr.getter, pr.setter, pr.deleter) if f is not None]
+        for fn in fns:
+            sn = fn.self_name
+            if sn is None:
+                continue
+            for x in ast.walk(fn.node):
+                if isinstance(x, ast.Call) and isinstance(x.func, ast.Attribute) and isinstance(x.func.value, ast.Name) and x.func.value.id == sn \
+                        and x.func.attr.startswith("_") and not x.func.attr.startswith("__") and x.func.attr != fn.name:
+                    m = K.lookup(x.func.attr)
+                    if m and m[1] == "method":
+                        out.add(x.func.attr)
+    _STAGES[id(K)] = (K, out)
+    return out
 
 
 def _key_name(K, field):
